@@ -6,6 +6,7 @@ import (
 	"verif/props/c01"
 	"verif/props/c02"
 	"verif/props/c03"
+	"verif/props/c04"
 	"verif/props/c09"
 	"verif/props/c10"
 	"verif/props/c18"
@@ -17,6 +18,7 @@ func Registry() map[string]func() *mon.Spec {
 		"C01": c01.Spec,
 		"C02": c02.Spec,
 		"C03": c03.Spec,
+		"C04": c04.Spec,
 		"C09": c09.Spec,
 		"C10": c10.Spec,
 		"C18": c18.Spec,
